@@ -95,7 +95,7 @@ func genLORequest(t *rapid.T, w gen.World, o gen.Opts) sut.LORequest {
 
 func genC05(t *rapid.T) C05Case {
 	o := worldOpts()
-	w := gen.GenWorld(t, o)
+	w := gen.AnyWorld(t, o)
 	c := C05Case{World: w}
 	n := rapid.IntRange(2, 6).Draw(t, "nCalls")
 	for i := 0; i < n; i++ {
